@@ -85,7 +85,7 @@ def strategy(tier):
                      st.integers(-2, 4)).map(_focus)
     return st.fixed_dictionaries({
         "prog": prog,
-        "drive": st.sampled_from(["start", "start", "steps", "pause", "bounded", "beyond", "beyond-incl"]),
+        "drive": st.sampled_from(["start", "start", "steps", "pause", "bounded", "beyond", "beyond-incl", "excl"]),
         "k": st.integers(1, 10), "cuts": st.lists(st.integers(1, 9), min_size=1, max_size=3),
         "subscribe": st.booleans(),
         "reinit": st.sampled_from([None, None, None, "ended", "init", "bounded"]),
@@ -283,7 +283,8 @@ def run_case(case):
             elif case["reinit"] == "bounded":
                 r0 = RefSim(prog)
                 r0.initialize()
-                h.run_piece(["run_up_to_incl", _jt(_bound(r0, 5, ck), ck)])
+                # (the kind of bound of an abandoned run is no business of the next replication)
+                h.run_piece(["run_up_to_incl" if case.get("k", 0) % 2 else "run_up_to", _jt(_bound(r0, 5, ck), ck)])
             from vlib.simharness import Recorder
             h.rec = Recorder()
             published["n"] = 0
@@ -317,6 +318,9 @@ def run_case(case):
                 if r2.ended:
                     break
                 errs.append(h.run_piece(["run_up_to_incl", _jt(b, ck)]))
+        elif drive == "excl":
+            # a pause by an exclusive bound; the rest of the replication by a plain start() (the loop below)
+            errs.append(h.run_piece(["run_up_to", _jt(_bound(r2, case["cuts"][0], ck), ck)]))
         elif drive in ("beyond", "beyond-incl"):
             # first a pause somewhere, then the rest with a bound BEYOND the replication end: every event up to and
             # including the end must still run (and nothing later)
